@@ -165,6 +165,20 @@ func checkC18(c *Ctx) {
 		}
 		R.check(ok, "C18.setline", "pkg/syntax/zh.ParseProgram:import", u.pos(f.Pos()), "an import statement gets the line of its 导入 keyword", "import statements are built without a line")
 	}
+	// a statement's line is looked up from the first line: FindLineIdx only searches forward from its hint, and the
+	// statement's first token lies behind the parser's current position once the statement has been parsed
+	if f := u.ssaFunc("pkg/syntax/zh", "ParserZH.setStmtCurrentLine"); f != nil {
+		okHint, nF := true, 0
+		for _, cs := range u.callsNamed(f, "pkg/syntax.Lexer.FindLineIdx") {
+			nF++
+			if !isZeroConst(cs.Common().Args[2]) {
+				okHint = false
+			}
+		}
+		R.check(okHint && nF == 1, "C18.setline", "pkg/syntax/zh.ParserZH.setStmtCurrentLine:search-from-first-line", u.pos(f.Pos()), "the line of the statement's first token is searched from line 0", "the line lookup of a statement starts from a later line than the statement's first token can lie on: a multi-line statement is attributed to its last line")
+	} else {
+		R.lost("C18.setline", "pkg/syntax/zh.ParserZH.setStmtCurrentLine")
+	}
 	// node-building functions: the allocated node receives setStmtCurrentLine on every path to a return of it
 	nNodes := 0
 	callerSets := map[string]bool{ // nodes whose line is set by the dispatcher that called the production (checked above / below)
@@ -311,6 +325,31 @@ func checkC18(c *Ctx) {
 		R.check(ok, "C18.syntax", "pkg/exec.SyntaxErrorWrapper.Error", u.pos(f.Pos()), "line number and quoted line derive from the same error cursor", "the line number and the quoted source line of a syntax error are computed from different positions")
 	} else {
 		R.lost("C18.syntax", "pkg/exec.SyntaxErrorWrapper.Error")
+	}
+	// the column marker is computed on characters: the functions that place it never cut or index the line as a Go
+	// string (byte offsets) - a column counts runes
+	for _, name := range []string{"calcCursorOffset", "fmtErrorSourceLineWithParser"} {
+		f := u.ssaFunc("pkg/exec", name)
+		if f == nil {
+			R.lost("C18.syntax", "pkg/exec."+name)
+			continue
+		}
+		bad := ""
+		for _, g := range append([]*ssa.Function{f}, allAnon(f)...) {
+			for _, in := range instrsOf(g) {
+				switch x := in.(type) {
+				case *ssa.Slice:
+					if isStringType(x.X.Type()) {
+						bad = u.pos(x.Pos())
+					}
+				case *ssa.Lookup:
+					if isStringType(x.X.Type()) {
+						bad = u.pos(x.Pos())
+					}
+				}
+			}
+		}
+		R.check(bad == "", "C18.syntax", "pkg/exec."+name+":columns-count-characters", u.pos(f.Pos()), "positions are applied to []rune, never to the Go string", "a character column is applied to the Go string as a byte offset at "+bad+": on a line with non-ASCII text the marker lands under the wrong character")
 	}
 }
 
